@@ -292,7 +292,8 @@ async def run_external(spec: dict[str, Any], hist: History,
             await s.fetch_all()
         for rnd in range(spec['rounds']):
             a = rng.choice(sessions)
-            kind = spec.get('window') or rng.choice(['lookup', 'snapshot'])
+            kind = spec.get('window') or rng.choice(['lookup', 'snapshot',
+                                                     'fetch'])
             if kind == 'lookup':
                 # the k-th lookup of A's next command races with a rename
                 # (a command looks every message up several times: listing
@@ -314,6 +315,25 @@ async def run_external(spec: dict[str, Any], hist: History,
                     await a.store(b'1:*', False, rng.choice(
                         [b'+FLAGS', b'-FLAGS']), rng.random() < 0.5,
                         [rng.choice([b'\\Seen', b'\\Flagged'])])
+            elif kind == 'fetch':
+                # a flag appears before A's FETCH reads the flags and is
+                # gone again before A takes its snapshot: what FETCH told
+                # is not what the message has, although nothing differs
+                # between the snapshots before and after
+                letter = rng.choice('FRS')
+                cur = os.path.join(env.base_dir, 'testuser', 'cur')
+                names = [n for n in sorted(os.listdir(cur))
+                         if letter not in n.partition(':2,')[2]]
+                if not names:
+                    continue
+                _flag_rename(os.path.join(cur, rng.choice(names)), letter,
+                             True)
+                state['fired'] += 1
+                state['armed'] = ['snapshot', letter]
+                if rng.random() < 0.5:
+                    await a.fetch_all()
+                else:
+                    await a.cmd(b'FETCH 1:* (FLAGS)')
             else:
                 # A stores a flag; it is taken away again before A looks
                 flag, letter = rng.choice([(b'\\Answered', 'R'),
@@ -350,6 +370,12 @@ async def script_external_lookup(hist: History,
                         'window': 'lookup'}, hist, counters)
 
 
+async def script_external_fetch(hist: History,
+                                counters: dict[str, int]) -> None:
+    await run_external({'seed': 5, 'nmsgs': 4, 'nsess': 2, 'rounds': 6,
+                        'window': 'fetch'}, hist, counters)
+
+
 async def script_external_snapshot(hist: History,
                                    counters: dict[str, int]) -> None:
     await run_external({'seed': 5, 'nmsgs': 4, 'nsess': 2, 'rounds': 6,
@@ -357,6 +383,7 @@ async def script_external_snapshot(hist: History,
 
 
 SCRIPTS = {'external-lookup': script_external_lookup,
+           'external-fetch': script_external_fetch,
            'external-snapshot': script_external_snapshot,
            'store-on-expunged': script_store_on_expunged,
            'silent-store': script_silent_store,
